@@ -18,7 +18,7 @@ for u in UNITS:
         u['enforce'] = ['remove_']
 
 # server::l2cap_output, the consumer of the queue: one dequeue, no other queue operation (contract stated in C08.py)
-UNITS += [dict(u, replay=dict(src='replay/c11_replay.cpp', cxxflags=['-DNDEBUG', '-I/repo/tests/test_tools', '-I/repo/tests/link_layer'],
+UNITS += [dict(u, defines=list(u.get('defines', [])) + ['C11_CLAUSES'], replay=dict(src='replay/c11_replay.cpp', cxxflags=['-DNDEBUG', '-I/repo/tests/test_tools', '-I/repo/tests/link_layer'],
               repo_sources=['tests/test_tools/test_radio.cpp', 'tests/test_tools/test_servers.cpp', 'tests/test_tools/hexdump.cpp', 'tests/test_tools/buffer_io.cpp', 'tests/test_tools/address_io.cpp',
                             'bluetoe/link_layer/delta_time.cpp', 'bluetoe/link_layer/channel_map.cpp', 'bluetoe/link_layer/connection_details.cpp', 'bluetoe/utility/address.cpp']))
           for u in _load('C08').UNITS if u['name'] == 'l2cap_output']
@@ -59,7 +59,7 @@ META = dict(
     level='proof',
     explanation="At most one indication outstanding: dequeue (general, single-entry and top-level wrapper, contracts in C12.py) hands out an "
                 "indication only when no confirmation is outstanding and then records it as outstanding; a pending indication bit is only "
-                "cleared when it is handed out; indication_confirmed() resets the marker; server::l2cap_output (the consumer) performs exactly one dequeue and no other queue operation (it never confirms). handle_value_confirmation rejects every length "
+                "cleared when it is handed out; indication_confirmed() resets the marker; server::l2cap_output (the consumer) performs exactly one dequeue; an indication it dequeues but does not send (not subscribed, value not readable) it takes as confirmed - otherwise every later indication would wait for ever (F-C11) -, and it touches the queue in no other way. handle_value_confirmation rejects every length "
                 "!= 1 with an Error Response and reports nothing to the link layer in that case, and reports a well-formed confirmation once. "
                 "'Eventually transmitted' is covered by the one-step fairness clause of dequeue (nothing eligible before the returned entry "
                 "is skipped, cursor advances): a ranking argument, not a liveness proof.",
